@@ -248,10 +248,14 @@ def sym_e():
 
 
 # optional lemma groups (completeness hints only; every lemma is a true statement)
-LEMMAS = {'taylor': False, 'exp_rational': True}
+LEMMA_DEFAULTS = {'taylor': False, 'exp_rational': True, 'exp_monotone': True, 'taylor6': False}
+LEMMAS = dict(LEMMA_DEFAULTS)
 
 
 def configure(**kw):
+    """Select the optional lemma groups for the current harness body (resets the others)."""
+    LEMMAS.clear()
+    LEMMAS.update(LEMMA_DEFAULTS)
     LEMMAS.update(kw)
 
 
@@ -285,6 +289,9 @@ def _trig_pair(arg):
             c.lemma(co <= 1 - a2 / 2 + a2 * a2 / 24)
             c.lemma(z3.Implies(arg >= 0, z3.And(s <= arg, s >= arg - a2 * arg / 6)))
             c.lemma(z3.Implies(arg <= 0, z3.And(s >= arg, s <= arg - a2 * arg / 6)))
+        if LEMMAS['taylor6']:
+            a2 = arg * arg
+            c.lemma(co >= 1 - a2 / 2 + a2 * a2 / 24 - a2 * a2 * a2 / 720)
         apps.append(arg)
 
 
@@ -333,9 +340,10 @@ def sexp(x):
             c.lemma(z3.Implies(arg <= 1, app <= EULER))
             c.lemma(z3.Implies(arg >= 1, app >= EULER))
             c.lemma(z3.Implies(arg <= -1, app * EULER <= 1))
-        for a in apps:
-            fa = EXP(a)
-            c.lemma(z3.And(z3.Implies(a <= arg, fa <= app), z3.Implies(arg <= a, app <= fa)))
+        if LEMMAS['exp_monotone']:
+            for a in apps:
+                fa = EXP(a)
+                c.lemma(z3.And(z3.Implies(a <= arg, fa <= app), z3.Implies(arg <= a, app <= fa)))
         apps.append(arg)
     return SNum(app)
 
